@@ -16,7 +16,8 @@ let fl_of_hex s = Float64.of_float (Int64.float_of_bits (Scanf.sscanf s "%Lx" (f
 let bits f = Int64.bits_of_float (Float64.to_float f)
 let hex_of_fl f = Printf.sprintf "%016Lx" (bits f)
 let zero = Float64.of_float 0.
-let maxcalls = 4000
+let maxcalls = 1200
+let fuelshown = 64
 
 type grid = {
   lay : layout;
@@ -32,6 +33,7 @@ type grid = {
 let () =
   let grid = ref None in
   let buf = Buffer.create 65536 in
+  let scratch = Buffer.create 1024 in
   let fuel = nat_of_int maxcalls in
   try
     while true do
@@ -143,10 +145,16 @@ let () =
               let e0 = { e_J = List.init nions (fun _ -> zero); e_hH = zero; e_hHe = zero } in
               let vis = Buffer.create 256 in
               let nvis = ref 0 in
+              let ncall = ref 0 in
+              let isfuel = tr.tr_end = EFuel in
               List.iter
                 (fun st ->
                   let r = st.ts_res in
                   let sub = int_of_z st.ts_sub in
+                  let show = (not isfuel) || !ncall < fuelshown in
+                  incr ncall;
+                  let buf = if show then buf else scratch in
+                  Buffer.clear scratch;
                   Buffer.add_string buf
                     (Printf.sprintf "S %d %d %s %s %s %s" sub (int_of_z st.ts_in) (hex_of_fl st.ts_ppos.vx) (hex_of_fl st.ts_ppos.vy)
                        (hex_of_fl st.ts_ppos.vz) (hex_of_fl st.ts_ptau));
